@@ -31,6 +31,8 @@ enum Kind
     VECTOR_STRING,
     CHAR_ARRAY, // char[K], const char[K]: byte tables, possibly ending in a zero byte
     HUGE_RANGE, // a computed range of more than 2^32 elements (thorough tier only)
+    VECTOR_BOOL, // std::vector<bool>: the elements are proxy objects handed out by value
+    INIT_LIST_STRING, // a braced list of std::string objects built at run time
     KIND_COUNT
 };
 enum Cat
@@ -50,7 +52,8 @@ static const char* kind_name(int k)
 {
     static const char* n[] = { "vector<int>",  "deque<int>",   "list<int>",       "map<int,int>",
                                "string",       "std::array",   "int[K]",          "initializer_list",
-                               "fixed_vector<int>", "vector<string>", "char[K]", "computed range of 2^32+5 elements" };
+                               "fixed_vector<int>", "vector<string>", "char[K]", "computed range of 2^32+5 elements", "vector<bool>",
+                               "initializer_list<string>" };
     return k >= 0 && k < KIND_COUNT ? n[k] : "?";
 }
 
@@ -98,7 +101,9 @@ std::string describe(const Case& c)
 static bool static_len_ok(int kind, std::size_t n)
 {
     if (kind == STD_ARRAY)
-        return n == 0 || n == 1 || n == 2 || n == 3 || n == 7;
+        return n == 0 || n == 1 || n == 2 || n == 3 || n == 7 || n == 100;
+    if (kind == INIT_LIST_STRING)
+        return n >= 1 && n <= 3;
     if (kind == BUILTIN_ARRAY || kind == CHAR_ARRAY)
         return n == 1 || n == 2 || n == 3 || n == 7;
     if (kind == INIT_LIST)
@@ -115,13 +120,17 @@ Case generate(vf::Src& src, const std::string& mode)
         c.kind = HUGE_RANGE;
         return c;
     }
-    c.kind = src.irange(0, KIND_COUNT - 2);
+    c.kind = src.irange(0, KIND_COUNT - 1);
+    if (c.kind == HUGE_RANGE)
+        c.kind = VECTOR;
     c.cat = src.irange(0, 3);
     c.what = src.irange(0, 1);
     c.style = src.irange(0, 4);
     int n;
     if (c.kind == STD_ARRAY)
-        n = std::vector<int>{ 0, 1, 2, 3, 7 }[src.index(5)];
+        n = std::vector<int>{ 0, 1, 2, 3, 7, 100 }[src.index(6)];
+    else if (c.kind == INIT_LIST_STRING)
+        n = src.irange(1, 3);
     else if (c.kind == BUILTIN_ARRAY || c.kind == CHAR_ARRAY)
         n = std::vector<int>{ 1, 2, 3, 7 }[src.index(4)];
     else if (c.kind == INIT_LIST)
@@ -130,7 +139,7 @@ Case generate(vf::Src& src, const std::string& mode)
         n = (ex || src.coin(94)) ? src.irange(0, 8) : std::vector<int>{ 15, 16, 17, 33, 64, 100 }[src.index(6)];
     if ((c.kind == BUILTIN_ARRAY || c.kind == CHAR_ARRAY) && c.cat >= RVALUE)
         c.cat = c.cat == RVALUE ? LVALUE : CONST_LVALUE; // there are no array temporaries
-    if (c.kind == INIT_LIST)
+    if (c.kind == INIT_LIST || c.kind == INIT_LIST_STRING)
         c.cat = RVALUE; // a braced list is always a temporary
     if (c.kind == FIXED_VECTOR)
         c.extra_cap = src.irange(0, 2);
@@ -259,6 +268,17 @@ struct Make<std::string>
         for (int v : c.vals)
             s.push_back(static_cast<char>(v));
         return s;
+    }
+};
+template <>
+struct Make<std::vector<bool>>
+{
+    static std::vector<bool> make(const Case& c)
+    {
+        std::vector<bool> r;
+        for (int v : c.vals)
+            r.push_back(v % 3 == 0);
+        return r;
     }
 };
 template <>
@@ -397,6 +417,15 @@ struct RevVisitor
     }
 };
 
+// Between the creation of a named range object and the loop over it, the stack below the current frame is
+// overwritten: whatever the range object needs it must own (or the caller's range must still be alive).
+__attribute__((noinline)) static void vf_scrub_stack()
+{
+    volatile unsigned char pad[24 * 1024];
+    for (std::size_t i = 0; i < sizeof pad; i += 1)
+        pad[i] = 0x5a;
+}
+
 // The two iteration styles: a range-for statement, or its expansion with an explicit
 // iterator advanced by post-increment.
 #define VF_WALK_ENUM(EXPR, HOW, ADDRS)                                                             \
@@ -412,6 +441,7 @@ struct RevVisitor
         else if (c.style == 1)                                                                     \
         {                                                                                          \
             auto&& rg = EXPR;                                                                      \
+            vf_scrub_stack();                                                                      \
             for (auto it = rg.begin(); it != rg.end(); it++)                                       \
                 if (!vis(*it))                                                                     \
                     break;                                                                         \
@@ -427,6 +457,7 @@ struct RevVisitor
         {                                                                                          \
             /* the range object is moved into another object first, then iterated */              \
             auto rg = EXPR;                                                                        \
+            vf_scrub_stack();                                                                      \
             auto rg2 = std::move(rg);                                                              \
             for (auto x : rg2)                                                                     \
                 if (!vis(x))                                                                       \
@@ -448,6 +479,7 @@ struct RevVisitor
         else if (c.style == 1)                                                                     \
         {                                                                                          \
             auto&& rg = EXPR;                                                                      \
+            vf_scrub_stack();                                                                      \
             for (auto it = rg.begin(); it != rg.end(); it++)                                       \
                 if (!vis(*it))                                                                     \
                     break;                                                                         \
@@ -456,6 +488,7 @@ struct RevVisitor
         {                                                                                          \
             /* the range object is moved into another object first, then iterated */              \
             auto rg = EXPR;                                                                        \
+            vf_scrub_stack();                                                                      \
             auto rg2 = std::move(rg);                                                              \
             for (auto& x : rg2)                                                                    \
                 if (!vis(x))                                                                       \
@@ -833,6 +866,88 @@ static void run_init_list(const Case& c, Result& r)
     }
 }
 
+// std::vector<bool>: the "elements" are proxies handed out by value; the proxy is the alias
+static void run_vector_bool(const Case& c, Result& r)
+{
+    using nitro::lang::enumerate;
+    std::vector<bool> want = Make<std::vector<bool>>::make(c);
+    auto read = [&](auto&& range, const char* how) {
+        std::size_t i = 0;
+        for (auto e : range)
+        {
+            if (e.index() != i || i >= want.size() || static_cast<bool>(e.value()) != want[i])
+                r.fail(std::string("enumerate ") + how + " over vector<bool>: visit " + std::to_string(i) +
+                       " carries index " + std::to_string(e.index()) + " / a wrong value");
+            ++i;
+        }
+        if (i != want.size())
+            r.fail(std::string("enumerate ") + how + " over vector<bool> makes " + std::to_string(i) + " visits, " +
+                   std::to_string(want.size()) + " elements");
+    };
+    if (c.cat == LVALUE)
+    {
+        std::vector<bool> vb = want;
+        read(enumerate(vb), "(lvalue)");
+        // write-through: flip every element through what value() hands out
+        for (auto e : enumerate(vb))
+        {
+            auto&& bit = e.value();
+            bit = !want[e.index()];
+        }
+        for (std::size_t i = 0; i < want.size(); ++i)
+            if (vb[i] != !want[i])
+            {
+                r.fail("enumerate (lvalue) over vector<bool>: a write through value() at index " + std::to_string(i) +
+                       " is not visible in the container");
+                break;
+            }
+    }
+    else if (c.cat == CONST_LVALUE)
+    {
+        const std::vector<bool> vb = want;
+        read(enumerate(vb), "(const lvalue)");
+    }
+    else
+        read(enumerate(Make<std::vector<bool>>::make(c)), "(temporary)");
+}
+
+// a braced list of std::string objects built at run time (heap allocated): the list and its elements
+// live until the loop ends
+static void run_init_list_string(const Case& c, Result& r)
+{
+    using nitro::lang::enumerate;
+    using nitro::lang::reverse;
+    auto mk = [&](std::size_t i) { return std::to_string(c.vals[i]) + std::string(40, '.'); };
+    if (c.what == ENUMERATE)
+    {
+        switch (c.vals.size())
+        {
+        case 1:
+            VF_WALK_ENUM(enumerate({ mk(0) }), "(initializer list of strings)", nullptr);
+            break;
+        case 2:
+            VF_WALK_ENUM(enumerate({ mk(0), mk(1) }), "(initializer list of strings)", nullptr);
+            break;
+        default:
+            VF_WALK_ENUM(enumerate({ mk(0), mk(1), mk(2) }), "(initializer list of strings)", nullptr);
+        }
+    }
+    else
+    {
+        switch (c.vals.size())
+        {
+        case 1:
+            VF_WALK_REV(reverse({ mk(0) }), "(initializer list of strings)", nullptr);
+            break;
+        case 2:
+            VF_WALK_REV(reverse({ mk(0), mk(1) }), "(initializer list of strings)", nullptr);
+            break;
+        default:
+            VF_WALK_REV(reverse({ mk(0), mk(1), mk(2) }), "(initializer list of strings)", nullptr);
+        }
+    }
+}
+
 std::string check(const Case& c, vf::Ctx& ctx)
 {
     Result r;
@@ -888,9 +1003,19 @@ std::string check(const Case& c, vf::Ctx& ctx)
         case 3:
             run_container<std::array<int, 3>>(c, r);
             break;
+        case 100:
+            run_container<std::array<int, 100>>(c, r);
+            break;
         default:
             run_container<std::array<int, 7>>(c, r);
         }
+        break;
+    case VECTOR_BOOL:
+        run_vector_bool(c, r);
+        break;
+    case INIT_LIST_STRING:
+        if (c.vals.size() >= 1 && c.vals.size() <= 3)
+            run_init_list_string(c, r);
         break;
     case BUILTIN_ARRAY:
         switch (c.vals.size())
